@@ -1008,6 +1008,339 @@ Proof.
   injection H as <-. reflexivity.
 Qed.
 
+(* ================================================================== c17_reset_trace_ok *)
+(* ---- what the receive loop leaves behind: an empty inbox, or a closed connection, or a blocked
+   transport ---- *)
+Definition Dd (s : vsock) : Prop :=
+  v_inbox s = [] \/ state_is_closed (v_state s) (o_wait_for_last_ack (v_opts s)) = true \/
+  v_transport_pending s = true.
+
+Lemma recv_loop_D : forall fuel (s : vsock) acc s' x, recv_loop cci fuel s acc = SOk s' x -> Dd s'.
+Proof.
+  assert (Hbase : forall (s : vsock) (acc : on_ack_result) s' x,
+    v_inbox s = [] ->
+    (if v_inbox_closed s
+     then sbind (maybe_send_fin (transition_to_fin_wait_1 s))
+                (fun s2 _ => SOk (set_state s2 Closed) (acc, true))
+     else SOk (set_inbox_waker s true) (acc, false)) = SOk s' x -> Dd s').
+  { intros s acc s' x Ei. destruct (v_inbox_closed s).
+    - destruct (maybe_send_fin _) as [s2 b|s2 e|]; cbn [sbind]; try discriminate.
+      intro H; injection H as <- _. right; left. reflexivity.
+    - intro H; injection H as <- _. left. exact Ei. }
+  induction fuel as [|m0 fuel IH]; intros s acc s' x; cbn [recv_loop];
+    destruct (v_inbox s) as [|m rest] eqn:Ei; try (apply Hbase; exact Ei); try discriminate.
+  destruct (process_incoming_message cci (set_inbox s rest) m) as [s1 r|s1 e|]; cbn [sbind]; try discriminate.
+  destruct (state_is_closed _ _ || v_transport_pending s1) eqn:Eb.
+  - intro H; injection H as <- _. apply orb_true_iff in Eb. right. exact Eb.
+  - apply IH.
+Qed.
+
+Lemma process_all_D (s2 s3 : vsock) u : process_all_incoming_messages cci s2 = SOk s3 u -> Dd s3.
+Proof.
+  rewrite process_all_eq.
+  destruct (recv_loop cci _ s2 on_ack_result_default) as [s1 res|s1 e|] eqn:El; cbn [sbind]; try discriminate.
+  intro H. apply recv_loop_D in El. apply pa_tail_keeps in H. destruct H as (K1 & K2 & K3 & K4).
+  unfold Dd in *. rewrite K1, K2, K3, K4. exact El.
+Qed.
+
+Lemma closed_mono (a b : vsock) :
+  G0 a b -> state_is_closed (v_state a) (o_wait_for_last_ack (v_opts a)) = true ->
+  state_is_closed (v_state b) (o_wait_for_last_ack (v_opts b)) = true.
+Proof.
+  intros (H1 & _ & _ & _ & Ho). rewrite Ho.
+  destruct (v_state a), (v_state b); cbn [st_rel state_is_closed] in *; auto; try discriminate; contradiction.
+Qed.
+
+(* a poll that returns Pending with a writable transport has drained the inbox *)
+Theorem poll_pending_drained (s s' : vsock) :
+  poll cci s = (s', PollPending) -> v_transport_pending s' = false -> v_inbox s' = [].
+Proof.
+  intros E T. rewrite poll_unfold in E.
+  pose proof (poll_loop_ind cci (fun _ => True)
+    (fun s' r => r = PollPending -> v_transport_pending s' = false -> v_inbox s' = [])) as H.
+  specialize (H ltac:(intros; discriminate)).
+  assert (Hb : forall t : vsock, True -> match poll_body cci t with
+     | BrReturn s'0 r => r = PollPending -> v_transport_pending s'0 = false -> v_inbox s'0 = []
+     | BrRestart _ => True | BrPanic => True end).
+  { intros t _. rewrite poll_body_parts. unfold body_front.
+    apply (body_head_walk cci (fun r => match r with
+       | BrReturn s'0 r => r = PollPending -> v_transport_pending s'0 = false -> v_inbox s'0 = []
+       | _ => True end)).
+    - intros r He. destruct r as [s1 [| |e|]|s1|]; cbn [early] in He; auto; try contradiction;
+        try (intros; discriminate). destruct He as [_ He]. intros _ X. congruence.
+    - intros s2 s3 _ _ E3 _ _ T3. pose proof (process_all_D _ _ _ E3) as D.
+      pose proof (body_mid_back_G0 cci s3 s3 (G_refl s3)) as B.
+      destruct (body_mid cci body_back s3) as [s1 r|s1|]; auto.
+      intros -> T1. cbn [bG0] in B. destruct B as [B1 B2]. specialize (B2 T1).
+      destruct D as [D|[D|D]]; [apply B1; exact D| |congruence].
+      pose proof (closed_mono _ _ B1 D) as C. unfold not_closed in B2. congruence. }
+  specialize (H Hb 64%nat (poll_init s) I). rewrite E in H. apply H; auto.
+Qed.
+
+Theorem poll_pending_not_closed (s s' : vsock) :
+  poll cci s = (s', PollPending) -> v_transport_pending s' = false -> not_closed s'.
+Proof. intros E T. apply poll_G0 in E. cbn [pG0] in E. apply E. exact T. Qed.
+
+Lemma pG0_state (a s' : vsock) r : pG0 a s' r -> st_rel (v_state a) (v_state s').
+Proof.
+  destruct r; cbn [pG0].
+  - intros [H _]. apply H.
+  - intros (s1 & H & ->). pose proof (jbd_spec s1 None) as J. cbv zeta in J. destruct J as (J1 & _).
+    rewrite J1. apply H.
+  - intros (s1 & H & ->). pose proof (jbd_spec s1 (Some e)) as J. cbv zeta in J. destruct J as (J1 & _).
+    rewrite J1. apply H.
+  - intro H. apply H.
+Qed.
+
+Lemma st_rel_closed b : st_rel Closed b -> b = Closed.
+Proof. destruct b; cbn [st_rel]; intro H; try contradiction; reflexivity. Qed.
+
+(* ---- a reset at the head of the inbox, past the handshake, no immediate ACK owed ---- *)
+(* not acknowledging our FIN in LastAck: reported at once, nothing on the wire *)
+Theorem reset_err_poll_out : forall (s : vsock) script m rest,
+  past_handshake (v_state s) = true -> immediate_ack_to_transmit s = false ->
+  v_inbox s = m :: rest -> ch_type (m_hdr m) = ST_RESET ->
+  (forall f r, v_state s = LastAck f r -> ch_ack (m_hdr m) <> f) ->
+  exists s', poll cci (VSockRec.set_sends s script) = (s', PollReadyErr ErrStResetReceived) /\ v_out s' = [].
+Proof.
+  intros s script m rest Hp Himm Hin Ht Hn.
+  unfold poll. set (s0 := set_arm_in (set_wakes (set_out (VSockRec.set_sends s script) []) []) None).
+  change (poll_loop cci 64 s0) with
+    (match poll_body cci s0 with
+     | BrReturn s' r => (s', r) | BrRestart s' => poll_loop cci 63 s' | BrPanic => (s0, PollPanic) end).
+  rewrite poll_body_decomp.
+  assert (Hsyn : maybe_send_syn_ack (body_start s0) = SOk (set_t_syn_ack_resend (body_start s0) None) tt).
+  { unfold maybe_send_syn_ack. change (v_state (body_start s0)) with (v_state s).
+    destruct (v_state s); try discriminate; reflexivity. }
+  rewrite Hsyn. set (s1 := set_t_syn_ack_resend (body_start s0) None).
+  unfold pend at 1, bail at 1.
+  change (v_restart s1) with false. change (v_transport_pending s1) with false. cbv beta iota.
+  unfold body_rest.
+  change (immediate_ack_to_transmit s1) with (immediate_ack_to_transmit s). rewrite Himm.
+  unfold pend at 1, bail at 1.
+  change (v_restart s1) with false. change (v_transport_pending s1) with false. cbv beta iota.
+  unfold process_all_incoming_messages.
+  change (v_inbox s1) with (v_inbox s). rewrite Hin. cbn [app recv_loop].
+  change (v_inbox s1) with (v_inbox s). rewrite Hin.
+  rewrite (reset_message_err cci (set_inbox s1 rest) m Ht Hn). cbn [sbind].
+  unfold pend at 1, bail at 1, die.
+  eexists. split; [reflexivity|].
+  pose proof (jbd_spec (set_state (set_inbox s1 rest) Closed) (Some ErrStResetReceived)) as J.
+  cbv zeta in J. destruct J as (_ & _ & _ & _ & _ & _ & [J|(Hl & _)]); [rewrite J; reflexivity|discriminate Hl].
+Qed.
+
+(* acknowledging our FIN in LastAck: the connection is Closed when the poll returns (unless it panics) *)
+Theorem reset_ack_poll : forall (s : vsock) script m rest f r0 s' r,
+  immediate_ack_to_transmit s = false ->
+  v_inbox s = m :: rest -> ch_type (m_hdr m) = ST_RESET ->
+  v_state s = LastAck f r0 -> ch_ack (m_hdr m) = f ->
+  poll cci (VSockRec.set_sends s script) = (s', r) -> r = PollPanic \/ v_state s' = Closed.
+Proof.
+  intros s script m rest f r0 s' r Himm Hin Ht Hs Ha.
+  unfold poll. set (s0 := set_arm_in (set_wakes (set_out (VSockRec.set_sends s script) []) []) None).
+  change (poll_loop cci 64 s0) with
+    (match poll_body cci s0 with
+     | BrReturn s' r => (s', r) | BrRestart s' => poll_loop cci 63 s' | BrPanic => (s0, PollPanic) end).
+  rewrite poll_body_decomp.
+  assert (Hsyn : maybe_send_syn_ack (body_start s0) = SOk (set_t_syn_ack_resend (body_start s0) None) tt).
+  { unfold maybe_send_syn_ack. change (v_state (body_start s0)) with (v_state s). rewrite Hs. reflexivity. }
+  rewrite Hsyn. set (s1 := set_t_syn_ack_resend (body_start s0) None).
+  unfold pend at 1, bail at 1.
+  change (v_restart s1) with false. change (v_transport_pending s1) with false. cbv beta iota.
+  unfold body_rest.
+  change (immediate_ack_to_transmit s1) with (immediate_ack_to_transmit s). rewrite Himm.
+  unfold pend at 1, bail at 1.
+  change (v_restart s1) with false. change (v_transport_pending s1) with false. cbv beta iota.
+  match goal with |- context [pend (process_all_incoming_messages cci s1) ?k] =>
+    change k with (fun (s : vsock) (_ : unit) => body_mid cci body_back s) end.
+  rewrite process_all_eq.
+  assert (Hin1 : v_inbox s1 = m :: rest) by exact Hin.
+  assert (Hs1 : v_state s1 = LastAck f r0) by exact Hs.
+  rewrite Hin1. cbn [app].
+  rewrite (reset_ok_recv_loop cci s1 m rest f r0 _ on_ack_result_default m Hin1 Ht Hs1 Ha). cbn [sbind].
+  set (sR := set_state (set_inbox s1 rest) Closed).
+  set (res := (result_update on_ack_result_default on_ack_result_default, false)).
+  assert (HB : bG0 sR (pend (pa_tail sR res) (fun (s : vsock) (_ : unit) => body_mid cci body_back s))).
+  { apply (pend_walk (bG0 sR) sR sR); [apply G_refl|apply pa_tail_G|apply early_bG0|].
+    intros s3 a _ F3 _ _. apply body_mid_back_G0. exact F3. }
+  assert (HR : v_state sR = Closed) by reflexivity.
+  destruct (pend (pa_tail sR res) _) as [s'' r''|s''|].
+  - intro H; injection H as <- <-. right. apply st_rel_closed. rewrite <- HR.
+    destruct r''; cbn [bG0] in HB.
+    + apply HB.
+    + destruct HB as (sx & HB & ->). pose proof (jbd_spec sx None) as J. cbv zeta in J.
+      destruct J as (J1 & _). rewrite J1. apply HB.
+    + destruct HB as (sx & HB & ->). pose proof (jbd_spec sx (Some e)) as J. cbv zeta in J.
+      destruct J as (J1 & _). rewrite J1. apply HB.
+    + contradiction.
+  - cbn [bG0] in HB. intro H. pose proof (poll_loop_G0 63 s'') as P. rewrite H in P. cbn [fst snd] in P.
+    apply pG0_state in P. right. apply st_rel_closed. rewrite <- HR.
+    eapply st_rel_trans; [apply HB|exact P].
+  - intro H; injection H as <- <-. left. reflexivity.
+Qed.
+
+(* ---- the trace walk ---- *)
+(* what reset_scan's `pending` knows about the model's inbox *)
+Definition RInv (s : vsock) (pending : option (list chdr)) : Prop :=
+  match pending with
+  | Some l => v_inbox_closed s = false /\ map m_hdr (v_inbox s) = l
+  | None => True
+  end.
+
+Lemma vstep_other (s : vsock) o :
+  match o with
+  | VoPoll _ | VoDeliver _ | VoCloseInbox => True
+  | _ => v_inbox (vstep_state cci s o) = v_inbox s /\
+         v_inbox_closed (vstep_state cci s o) = v_inbox_closed s /\
+         poll_finished (snd (fst (fst (vstep cci s o)))) = false
+  end.
+Proof.
+  unfold vstep_state. destruct o; try exact I; cbn [vstep].
+  - repeat split.
+  - repeat split.
+  - destruct (writer_dropped _); [|destruct (poll_write _ _) as [[tx1 r] w]]; repeat split.
+  - destruct (writer_dropped _); [|destruct (poll_flush _) as [[tx1 r] w]]; repeat split.
+  - destruct (writer_dropped _); [|destruct (poll_shutdown _) as [[tx1 r] w]]; repeat split.
+  - destruct (reader_dropped _); [|destruct (rx_read _ _) as [[rx1 r] w]]; repeat split.
+  - destruct (reader_dropped _); [|destruct (rx_drop_reader _) as [rx1 w]]; repeat split.
+  - destruct (drop_writer _) as [tx1 w]; repeat split.
+Qed.
+
+(* the judgement of one poll *)
+Definition reset_poll_check (pending : option (list chdr)) (st : fstep) : bool :=
+  match pending with
+  | Some (h :: _) =>
+      if ptype_eqb (ch_type h) ST_RESET &&
+         match f_state (fs_pre st) with SynReceived | SynAckSent _ => false | _ => true end &&
+         (f_cbu (fs_pre st) <? IMMEDIATE_ACK_EVERY_RMSS * f_mss (fs_pre st))
+      then
+        let acks_fin := match f_state (fs_pre st) with
+                        | LastAck f _ => ch_ack h =? f | _ => false end in
+        match fs_result st with
+        | FrPoll (PollReadyErr e) pk _ _ =>
+            if acks_fin then true
+            else verror_is_reset e && match pk with [] => true | _ => false end
+        | FrPoll PollReadyOk _ _ _ => acks_fin
+        | FrPoll PollPending _ _ _ => acks_fin && f_transport_pending (fs_post st)
+        | _ => true
+        end
+      else true
+  | _ => true
+  end.
+
+Lemma reset_poll_check_ok (s : vsock) sc s' r pending :
+  RInv s pending -> poll cci (VSockRec.set_sends s sc) = (s', r) ->
+  reset_poll_check pending (fstep_of cci s (VoPoll sc)) = true.
+Proof.
+  intros Hi E. rewrite (fstep_of_poll cci s sc s' r E). unfold reset_poll_check.
+  destruct pending as [[|h l']|]; try reflexivity.
+  cbn [fs_pre fs_post fs_result fp_of_vsock f_state f_cbu f_mss f_transport_pending].
+  destruct Hi as [Hc Hm].
+  destruct (v_inbox s) as [|m rest] eqn:Hin; [discriminate|]. cbn [map] in Hm. injection Hm as Hh _.
+  destruct (ptype_eqb (ch_type h) ST_RESET) eqn:Et; [|reflexivity]. cbn [andb].
+  apply ptype_eqb_iff in Et. rewrite <- Hh in Et.
+  destruct (match v_state s with SynReceived | SynAckSent _ => false | _ => true end) eqn:Eph; [|reflexivity].
+  cbn [andb].
+  destruct (v_cbu s <? IMMEDIATE_ACK_EVERY_RMSS * mss (v_ss s)) eqn:Ecb; [|reflexivity].
+  assert (Himm : immediate_ack_to_transmit s = false).
+  { unfold immediate_ack_to_transmit. apply Z.ltb_lt in Ecb. apply Z.leb_gt. exact Ecb. }
+  cbv zeta.
+  destruct (match v_state s with LastAck f _ => ch_ack h =? f | _ => false end) eqn:Eaf.
+  - (* acknowledges our FIN *)
+    destruct (v_state s) as [| | | | |f r0|] eqn:Es; try discriminate.
+    apply Z.eqb_eq in Eaf. rewrite <- Hh in Eaf.
+    destruct r; try reflexivity. cbn [andb].
+    destruct (v_transport_pending s') eqn:T; [reflexivity|exfalso].
+    pose proof (poll_pending_not_closed _ _ E T) as N.
+    destruct (reset_ack_poll s sc m rest f r0 s' PollPending Himm Hin Et Es Eaf E) as [X|X]; [discriminate|].
+    unfold not_closed in N. rewrite X in N. discriminate.
+  - (* does not *)
+    assert (Hn : forall f r1, v_state s = LastAck f r1 -> ch_ack (m_hdr m) <> f).
+    { intros f r1 Hs. rewrite Hs in Eaf. apply Z.eqb_neq in Eaf. rewrite Hh. exact Eaf. }
+    assert (Hp : past_handshake (v_state s) = true) by exact Eph.
+    destruct (reset_err_poll_out s sc m rest Hp Himm Hin Et Hn) as (s'' & E' & Ho).
+    rewrite E in E'. injection E' as <- ->. rewrite Ho. reflexivity.
+Qed.
+
+Lemma reset_scan_poll pending st rest :
+  (exists sc, fs_event st = FePoll sc) ->
+  reset_scan (st :: rest) pending =
+  reset_poll_check pending st &&
+  reset_scan rest (if f_transport_pending (fs_post st) then None
+                   else match pending with Some _ => Some [] | None => None end).
+Proof. intros [sc H]. cbn [reset_scan]. rewrite H. reflexivity. Qed.
+
+Theorem reset_scan_model : forall ops (s : vsock) pending,
+  RInv s pending -> reset_scan (ftrace cci s ops) pending = true.
+Proof.
+  induction ops as [|o ops IH]; intros s pending Hi; [reflexivity|].
+  rewrite ftrace_cons.
+  pose proof (vstep_other s o) as Ho.
+  destruct o.
+  - destruct Ho as (O1 & O2 & O3). rewrite O3. cbn [reset_scan]. rewrite fstep_of_event. cbn [fevent_of].
+    apply IH. destruct pending; cbn [RInv] in *; [rewrite O1, O2; exact Hi|exact I].
+  - destruct Ho as (O1 & O2 & O3). rewrite O3. cbn [reset_scan]. rewrite fstep_of_event. cbn [fevent_of].
+    apply IH. destruct pending; cbn [RInv] in *; [rewrite O1, O2; exact Hi|exact I].
+  - (* poll *)
+    destruct (poll cci (VSockRec.set_sends s script)) as [s' r] eqn:E.
+    rewrite reset_scan_poll by (exists script; apply fstep_of_event).
+    rewrite (reset_poll_check_ok s script s' r pending Hi E). cbn [andb].
+    assert (Hf : snd (fst (fst (vstep cci s (VoPoll script)))) = VrPoll r (rev (v_out s')) (rev (v_wakes s')) (v_arm_in s')).
+    { cbn [vstep]. rewrite E. reflexivity. }
+    rewrite Hf. unfold poll_finished. destruct r; try reflexivity.
+    assert (Hs : vstep_state cci s (VoPoll script) = s').
+    { unfold vstep_state. cbn [vstep]. rewrite E. reflexivity. }
+    rewrite Hs. apply IH.
+    rewrite (fstep_of_poll cci s script s' _ E). cbn [fs_post fp_of_vsock f_transport_pending].
+    destruct (v_transport_pending s') eqn:T; [exact I|].
+    destruct pending as [l|]; [|exact I]. cbn [RInv] in *. destruct Hi as [Hc _].
+    split.
+    + pose proof (poll_G0 _ _ _ E) as P. cbn [pG0] in P. destruct P as ((_ & _ & _ & P4 & _) & _).
+      rewrite P4. exact Hc.
+    + rewrite (poll_pending_drained _ _ E T). reflexivity.
+  - (* deliver *)
+    cbn [reset_scan]. rewrite fstep_of_event. cbn [fevent_of].
+    assert (Hf : poll_finished (snd (fst (fst (vstep cci s (VoDeliver m))))) = false).
+    { cbn [vstep]. destruct (v_inbox_closed s); reflexivity. }
+    rewrite Hf. apply IH. destruct pending as [l|]; [|exact I]. cbn [RInv] in *. destruct Hi as [Hc Hm].
+    unfold vstep_state. cbn [vstep]. rewrite Hc. cbn [fst]. vsimpl. split; [exact Hc|].
+    rewrite map_app, Hm. reflexivity.
+  - (* close *)
+    cbn [reset_scan]. rewrite fstep_of_event. cbn [fevent_of].
+    assert (Hf : poll_finished (snd (fst (fst (vstep cci s VoCloseInbox)))) = false) by reflexivity.
+    rewrite Hf. apply IH. exact I.
+  - destruct Ho as (O1 & O2 & O3). rewrite O3. cbn [reset_scan]. rewrite fstep_of_event. cbn [fevent_of].
+    apply IH. destruct pending; cbn [RInv] in *; [rewrite O1, O2; exact Hi|exact I].
+  - destruct Ho as (O1 & O2 & O3). rewrite O3. cbn [reset_scan]. rewrite fstep_of_event. cbn [fevent_of].
+    apply IH. destruct pending; cbn [RInv] in *; [rewrite O1, O2; exact Hi|exact I].
+  - destruct Ho as (O1 & O2 & O3). rewrite O3. cbn [reset_scan]. rewrite fstep_of_event. cbn [fevent_of].
+    apply IH. destruct pending; cbn [RInv] in *; [rewrite O1, O2; exact Hi|exact I].
+  - destruct Ho as (O1 & O2 & O3). rewrite O3. cbn [reset_scan]. rewrite fstep_of_event. cbn [fevent_of].
+    apply IH. destruct pending; cbn [RInv] in *; [rewrite O1, O2; exact Hi|exact I].
+  - destruct Ho as (O1 & O2 & O3). rewrite O3. cbn [reset_scan]. rewrite fstep_of_event. cbn [fevent_of].
+    apply IH. destruct pending; cbn [RInv] in *; [rewrite O1, O2; exact Hi|exact I].
+  - destruct Ho as (O1 & O2 & O3). rewrite O3. cbn [reset_scan]. rewrite fstep_of_event. cbn [fevent_of].
+    apply IH. destruct pending; cbn [RInv] in *; [rewrite O1, O2; exact Hi|exact I].
+Qed.
+
+Theorem c17_reset_trace_ok_trace_pre : forall cfg ops (s : vsock),
+  v_inbox s = [] -> v_inbox_closed s = false ->
+  c17_reset_trace_ok cfg (ftrace cci s ops) = true.
+Proof.
+  intros cfg ops s H1 H2. unfold c17_reset_trace_ok. apply reset_scan_model.
+  cbn [RInv]. rewrite H1. auto.
+Qed.
+
+Theorem c17_reset_trace_ok_trace : forall mk cfg (s0 : vsock) ops,
+  vsock_new cci mk cfg = Some s0 -> c17_reset_trace_ok cfg (ftrace cci s0 ops) = true.
+Proof.
+  intros mk cfg s0 ops H. apply c17_reset_trace_ok_trace_pre.
+  - revert H. unfold vsock_new.
+    destruct (match (if vc_incoming cfg then None else _) with Some r => _ | None => _ end); [|discriminate].
+    intro H; injection H as <-. reflexivity.
+  - eapply vsock_new_inbox_open; eauto.
+Qed.
+
 (* ================================================================== the step theorems, spelled out
    over vstep (what Props/C17.v states) *)
 Lemma fstep_of_expand (P : fstep -> bool) (s : vsock) o :
